@@ -102,7 +102,8 @@ def gen(seed, tier):
             ops.append(['abort'])
         elif x < 0.87:
             ops.append(['fail', r.choice(('conflict', 'participant',
-                                          'rename', 'rename+enospc')),
+                                          'rename', 'rename+enospc',
+                                          'foreignfinish')),
                         r.randrange(4)])
         elif x < 0.92:
             ops.append(['undo', -1 - r.randrange(3),
@@ -692,6 +693,22 @@ class M:
             A.root()['cell'].token = self.counter + 1000
         elif how == 'participant':
             A.tm.get().join(FailingDM('tpc_vote', first=False))
+        elif how == 'foreignfinish':
+            # a tpc_finish for a transaction that is not the one in flight
+            # (refused), then the vote fails: nothing of the transaction
+            # may stay
+            from ZODB.Connection import TransactionMetaData
+            from ZODB.POSException import StorageTransactionError
+            st = self.st
+
+            class ForeignFinish(FailingDM):
+                def tpc_vote(self, txn):
+                    try:
+                        st.tpc_finish(TransactionMetaData(b'', b'f', {}))
+                    except StorageTransactionError:
+                        pass
+                    self._maybe('tpc_vote')
+            A.tm.get().join(ForeignFinish('tpc_vote', first=False))
         else:
             e = [{'at': arg, 'kind': 'eio', 'ops': ('real.rename',)}]
             if how == 'rename+enospc':
